@@ -49,6 +49,17 @@ type c17Case struct {
 	// interceptor of the first call was handed (a follow-up or auxiliary RPC issued by code that runs inside the
 	// first call, or with a stream's context): it is a call like any other and every layer sees it once
 	Follow bool `json:",omitempty"`
+	// DescFlags (stream calls on the fake base): the caller's StreamDesc says client-streaming (bit 0) and/or
+	// server-streaming (bit 1), or neither (a unary RPC issued through the streaming API); -1 = bidi as usual.
+	// Whatever it says, it is a stream creation and goes through every stream interceptor.
+	DescFlags int `json:",omitempty"`
+}
+
+func c17Desc(c *c17Case) *grpc.StreamDesc {
+	if c.Base != "fake" || c.DescFlags < 0 {
+		return streamDescOf(kBidi)
+	}
+	return &grpc.StreamDesc{StreamName: "Bidi", ClientStreams: c.DescFlags&1 != 0, ServerStreams: c.DescFlags&2 != 0}
 }
 
 type c17SwitchConn struct {
@@ -364,7 +375,8 @@ func propC17Chain(c c17Case) *Outcome {
 			baseHits++
 			finalMethod = method
 			if c.Stream {
-				wantBase = append(wantBase, fmt.Sprintf("stream:%s:%d:true:true", method, nopts))
+				d := c17Desc(&c)
+				wantBase = append(wantBase, fmt.Sprintf("stream:%s:%d:%v:%v", method, nopts, d.ClientStreams, d.ServerStreams))
 			} else {
 				wantBase = append(wantBase, fmt.Sprintf("invoke:%s:%d:%d", method, nopts, cnt))
 			}
@@ -438,7 +450,7 @@ func propC17Chain(c c17Case) *Outcome {
 					// the first call failed: the follow-up is made all the same, its own result is not looked at
 					var out2 pb.Message
 					if c.Stream {
-						if cs, e := ch.NewStream(ctx, streamDescOf(kBidi), mBidi, opts...); e == nil && c.Base != "fake" {
+						if cs, e := ch.NewStream(ctx, c17Desc(&c), mBidi, opts...); e == nil && c.Base != "fake" {
 							cs.CloseSend()
 							for cs.RecvMsg(new(pb.Message)) == nil {
 							}
@@ -450,7 +462,7 @@ func propC17Chain(c c17Case) *Outcome {
 				}
 			}
 			if c.Stream {
-				gotStream, err = ch.NewStream(ctx, streamDescOf(kBidi), mBidi, opts...)
+				gotStream, err = ch.NewStream(ctx, c17Desc(&c), mBidi, opts...)
 				if err == nil && c.Base != "fake" {
 					gotStream.CloseSend()
 					for i := 0; i < 3; i++ {
@@ -550,6 +562,7 @@ func genC17(t *rapid.T) c17Case {
 	c.ViaOld = rapid.Bool().Draw(t, "viaold")
 	c.DoneCtx = c.Base == "fake" && rapid.IntRange(0, 3).Draw(t, "donectx") == 0
 	c.Follow = rapid.IntRange(0, 3).Draw(t, "follow") == 0
+	c.DescFlags = rapid.SampledFrom([]int{-1, -1, 0, 0, 1, 2, 3}).Draw(t, "descflags")
 	ub := []string{"", "pass", "pass", "pass", "sc-err", "sc-ctxerr", "sc-ok", "add-opt", "drop-opts", "rw-method", "twice", "rw-req"}
 	sb := []string{"", "pass", "pass", "pass", "sc-err", "sc-ctxerr", "add-opt", "drop-opts", "rw-method"}
 	for i := 0; i < n; i++ {
@@ -560,7 +573,7 @@ func genC17(t *rapid.T) c17Case {
 
 func init() { registerReplay("C17", propC17) }
 
-const c17Rule = "rapid-generated: base channel (recording fake, in-process, httpgrpc, real *grpc.ClientConn over bufconn) x 0..4 InterceptClientConn layers, each with nil or non-nil unary and stream interceptors x behaviours (pass, short-circuit error incl. a bare context error, short-circuit success, append / drop call options, rewrite the method, use the invoker twice) x 0..2 caller options x unary/stream call x caller context live or already cancelled (fake base) x optionally a second identical call made with the context the innermost interceptor of the first was handed; " +
+const c17Rule = "rapid-generated: base channel (recording fake, in-process, httpgrpc, real *grpc.ClientConn over bufconn) x 0..4 InterceptClientConn layers, each with nil or non-nil unary and stream interceptors x behaviours (pass, short-circuit error incl. a bare context error, short-circuit success, append / drop call options, rewrite the method, use the invoker twice) x 0..2 caller options x unary/stream call (stream descriptors with every combination of flags, also neither, on the fake base) x caller context live or already cancelled (fake base) x optionally a second identical call made with the context the innermost interceptor of the first was handed; " +
 	"oracle = model log (recursive interpreter): outermost wrapper first, each applicable interceptor once per use of the invoker above it, with the method and option count as transformed so far and cc = the underlying *grpc.ClientConn iff the base is one (at every depth, unary and stream alike); the base sees method/message/options as transformed; nil,nil returns the same channel; Unwrap returns the wrapped one; " +
 	"also generated since the seeded rounds: interceptors handing on a request of their own (the base and the handler see that one), chains up to 8 deep, a sibling wrapper created over the same inner channel after the chain was built, a user-defined WrappedClientConn below the layers whose target changes between calls (the interceptors get the conn underlying each call); " +
 	"non-trivial = depth >= 2; distinct by case hash"
